@@ -40,6 +40,7 @@ TIERS = {
 
 STEP_CAP = 1500000
 _state = {}
+_site_picks = {}    # per worker process: how often a site was targeted
 
 STATEFUL = [
     "$.recs.orderBy($.v).thenBy($.name).select([$.v, $.name])",
@@ -590,11 +591,23 @@ def run_world(case, stats, record=None):
                 weights = [(8.0 if x in sched.GLOBAL_SITES else 1.0) /
                            counter.sites[x] for x in sites]
                 tg = []
-                for _ in range(n):
-                    if sites:
+                for i_ in range(n):
+                    if not sites:
+                        break
+                    if i_ % 2 == 0:
+                        # novelty first: the executed site this worker has
+                        # targeted least so far (rarely executed code - a
+                        # cache filled once, a lazily built table - gets its
+                        # turn as soon as a run reaches it)
+                        st_ = min(sites, key=lambda x: (
+                            _site_picks.get(x, 0),
+                            0 if x in sched.GLOBAL_SITES else 1,
+                            counter.sites[x], x))
+                    else:
                         st_ = r.choices(sites, weights)[0]
-                        tg.append([st_[0], st_[1],
-                                   r.randrange(1, counter.sites[st_] + 1)])
+                    _site_picks[st_] = _site_picks.get(st_, 0) + 1
+                    tg.append([st_[0], st_[1],
+                               r.randrange(1, counter.sites[st_] + 1)])
                 spec['switch_at_w'] = tg
             if spec.get('switch_at_w_override'):
                 spec['switch_at_w'] = spec['switch_at_w_override']
